@@ -492,7 +492,7 @@ def first_panic_line(out):
 
 def describe_rejection(tout):
     m = re.search(r'"REJECTED at line", (\d+)', tout)
-    ev = re.search(r'<< "event",\s*(.*?)>>\n<< "state"', tout, re.S)
+    ev = re.search(r'<<\s*"event",\s*(.*?)>>\s*\n<<\s*"state"', tout, re.S)
     s = "trace rejected at line %s" % (m.group(1) if m else "?")
     if ev:
         s += ": observed " + re.sub(r"\s+", " ", ev.group(1))[:300]
